@@ -130,6 +130,7 @@ impl Prop for Conventions {
         cfg.backends = false;
         cfg.static_vfuncs = true;
         cfg.vft_num = 2;
+        cfg.alias_types = 4;
         let (prog, _, _) = gen_prog(t, cfg);
         Case { prog, w }
     }
